@@ -126,8 +126,50 @@ class LoopSpec(object):
         self.variant = variant
         self.havoc = havoc
 
+    def run_for_range(self, I, node, frame):
+        """The same contract for the loop written as `for x in range(a, b)`: the hidden position c runs from a to b;
+        invariant callbacks can read it as frame.locals['$counter'] / frame.locals['$start']; termination is by
+        construction (b - c), so the contract's own variant is not consulted."""
+        import ast
+        from .values import Unsupported, SInt
+        from .builtins_model import SymRange
+        E = I.E
+        rng = I.eval(node.iter, frame)
+        if isinstance(rng, range) and rng.step == 1:
+            a, b = rng.start, rng.stop
+        elif isinstance(rng, SymRange):
+            a, b = rng.start, rng.n
+        else:
+            raise Unsupported('loop contract %s: for loop over %s (only range(a, b) is supported)' % (self.label, type(rng).__name__))
+        E.notes.append('loop contract %s (invariant; for-over-range form, termination by construction)' % self.label)
+        self.assigned = _assigned_names(node.body)
+        self.live = {k for k in self.assigned if _live_at_head([node], k)}
+        frame.locals['$start'], frame.locals['$counter'] = a, a
+        E.check('%s.inv-entry' % self.label, _fit(self.label, self.invariant, I, frame), kind='loop')
+        _havoc_checked(self.label, self.havoc, I, frame, [node])
+        c = E.new_int('%s.position' % self.label)
+        E.assume(c >= a)
+        frame.locals['$counter'] = c
+        E.assume(_fit(self.label, self.invariant, I, frame))
+        if E.decide(E.new_bool('%s.iterate' % self.label).t):
+            E.assume(c < b)
+            I.assign(node.target, c, frame)
+            frame.locals['$counter'] = c + 1
+            try:
+                I.exec_block(node.body, frame)
+            except _Break:
+                return
+            except _Continue:
+                pass
+            E.check('%s.inv-preserved' % self.label, _fit(self.label, self.invariant, I, frame), kind='loop')
+            raise PathEnd('loop body verified')
+        E.assume(c >= b)
+        I.exec_block(node.orelse, frame)
+
     def run(self, I, node, frame):
         import ast
+        if isinstance(node, ast.For):
+            return self.run_for_range(I, node, frame)
         E = I.E
         E.notes.append('loop contract %s (invariant%s)' % (self.label, ' + variant' if self.variant else ''))
         self.assigned = _assigned_names(node.body)       # for contracts that look for loop-carried locals by role
@@ -137,7 +179,7 @@ class LoopSpec(object):
         E.assume(_fit(self.label, self.invariant, I, frame))
         is_while = isinstance(node, ast.While)
         if not is_while:
-            raise NotImplementedError('LoopSpec for "for" loops is provided by ForSpec')
+            raise NotImplementedError('internal: for loops go through run_for_range')
         it = E.new_bool('%s.iterate' % self.label)
         if E.decide(it.t):
             # an arbitrary iteration (the variant is sampled at the loop head, before the guard, which may have effects)
